@@ -353,7 +353,13 @@ def rule_schema(ctx) -> None:
     ctx.check(props in sets_, "C13.SCHEMA", f"{pv.qual}/allowed-keys", pv.loc(), f"allowed keys {sorted(props)} equal the schema's properties", f"allowed-key set differs from the schema's {sorted(props)}")
 
 
+def rule_zero_budget(ctx) -> None:
+    from ..zero import zero_budget_rule
+    zero_budget_rule(ctx, "C13.CAP", ["clematis.engine.stages.t3.bundle", "clematis.engine.stages.t3.policy", "clematis.engine.stages.t3.legacy"], 3)
+
+
 def run(ctx) -> None:
+    rule_zero_budget(ctx)
     rule_cap(ctx)
     rule_rr(ctx)
     rule_once(ctx)
